@@ -26,4 +26,4 @@ for v in ctx.violations:
 for k, (n, v) in sorted(seen.items()):
     print(f'== {k}  (x{n})  case={v["case"][:150]}')
     for a, b in v['info'].items():
-        print(f'     {a}: {b[:300]}')
+        print(f'     {a}: {b[-900:] if a == "traceback" else b[:300]}')
